@@ -45,11 +45,23 @@ def main():
                         r = sh(f"VERIF_REPO={wt} VERIF_EVIDENCE_DIR=/tmp/mut-evidence ./verif check {c} --tier quick", "/verif")
                         kinds = sorted(set(re.findall(r"^violation: (\S+?)@", r.stdout, re.M)))
                         rec["checks"][c] = {"exit": r.returncode, "violation_kinds": kinds}
+                        # every reported violation must replay: the first replay file, twice,
+                        # each in a fresh process, must reproduce the same kind@site
+                        mm = re.search(r"^VIOLATION property=\S+ replay=(\S+)", r.stdout, re.M)
+                        if mm:
+                            reps = []
+                            for _ in range(2):
+                                rr = sh(f"VERIF_REPO={wt} ./verif replay {mm.group(1)}", "/verif")
+                                got = re.findall(r"^replay: reproduced (\S+)", rr.stdout, re.M)
+                                reps.append((rr.returncode, got[0] if got else ""))
+                            rec["checks"][c]["replay"] = reps
+                            rec["checks"][c]["replay_reproduces"] = all(x[0] == 1 for x in reps) and reps[0] == reps[1]
         finally:
             sh(f"git -C /repo worktree remove --force {wt}", "/")
         results.append(rec)
         det = [c for c, v in rec["checks"].items() if v["exit"] == 1]
-        print(f"{sid:60s} {rec['status'][:40]:40s} detected_by={det} {[v['violation_kinds'][:3] for v in rec['checks'].values()]}", flush=True)
+        rp = [v.get('replay_reproduces') for v in rec['checks'].values()]
+        print(f"{sid:60s} {rec['status'][:40]:40s} detected_by={det} replays={rp} {[v['violation_kinds'][:3] for v in rec['checks'].values()]}", flush=True)
         json.dump(results, open("/verif/work/reseed.json", "w"), indent=1)
 
 if __name__ == "__main__":
